@@ -15,6 +15,15 @@
    by the usual reduction (acquire moves right, release moves left, the protected plain fields commute with everything
    outside the lock); the correspondence places its event at that operation (at the release if it has none).
 
+   Two plain-field orders inside sections are folded into one event and justified by the invariant, not by the
+   reduction: (1) `_writers_first` is written under the lock but READ outside it (UnlockHereShared, after its
+   fetch_sub on `_readers_wait` returned 1).  AwaitLock writes it between its two fetch_adds (the model: at the first),
+   RunReaders writes it AFTER its store to `_readers_wait` (the model: at the store, [EUWStore], together with the pop
+   and the release).  No reader can see 1 in between: while the first writer is between its fetch_adds `_readers_wait`
+   is <= 0 (i_pc), and at RunReaders' store no reader holds a token or owes a decrement (i_pst / phS: a writer was
+   holding) and the readers it releases are resumed only after the lock is released.  (2) [EUSRun] reads [wfirst] when
+   it runs, as the source does.
+
    `_state` is the pair ([sw], [sr]) = (writers, readers) of the packed 32+32 bit word (kWriter = kReader << 32,
    kReader = 1: coq/gen/Gen_shmutex_consts.v; the packing is proved equivalent for counts < 2^32 in
    proofs/CoSharedMutexPack.v).
